@@ -512,6 +512,13 @@ def call_parts():
                '''),
         ]),
         Impl('impl<Req, Resp> Channel<Req, Resp>', fx_type='GFx', qual='Channel', parts=[
+            Fn(SRC, r'impl<Req, Resp> Clone for Channel<Req, Resp>', 'clone', tags='C01',
+               ensures='''
+                 // A-ids reduced: every clone of a client handle allocates request ids from the ONE shared counter and feeds the
+                 // same dispatch queues, so ids of calls on different handles cannot collide (what remains assumed: fetch_add is atomic)
+                 r.next_request_id.counter() == self.next_request_id.counter(), // @C01
+                 r.to_dispatch.queue() == self.to_dispatch.queue() && r.cancellation.queue() == self.cancellation.queue(), // @C01,C03
+               '''),
             Fn(SRC, CALL_IMPL, 'call', fx=True, tags='C01,C03,C18',
                rules=[
                    Rule('R1:span-current', r'let span = Span::current\(\);', 'let span = Span::current();', 1, where='body', why='(identity) span is opaque'),
